@@ -300,6 +300,10 @@ def r02_2(ctx):
     sub = compiled_pattern(repo, CORE, repo.resolve_const(CORE, "_unescape_sub"))
     r = [n for n in ast.walk(un.node) if isinstance(n, ast.Return)]
     construct = "unescape/backslash+x -> x"
+    if sub is None and any(isinstance(x, (ast.While, ast.For)) for x in ast.walk(un.node)):
+        # a hand-written scan instead of the regex: whether it maps backslash+x to x for every x is a statement about a loop over
+        # characters that this analysis does not decide (it does not execute code) - fail closed rather than guess
+        raise AnalysisError("unescape() is no longer `_unescape_sub(r'\\1', s)` over a constant pattern but a hand-written scan: not decidable here")
     ok = sub == r"\\(.)" and r and ast.unparse(r[0].value).replace('"', "'") == f"_unescape_sub('\\\\1', {un.node.args.args[0].arg})"
     (ctx.ok(construct, un.loc()) if ok else ctx.bad(construct, f"pattern {sub!r}, body {ast.unparse(r[0].value) if r else None}", un.loc()))
     # every string writer quotes through _escape
